@@ -356,7 +356,11 @@ def gen_macro_program(rng, dom=4):
                 body.append(If(Cmp(rng.choice(['<', '!=', '<=', '==']), some_var(), some_var())))
             elif kind == 'for':
                 l = fresh_local()
-                body.append(For(l, Range(K(0), Bin('+', some_var(), K(1), 3))))
+                rg = Range(K(0), Bin('+', some_var(), K(1), 3)) if rng.random() < 0.5 else Range(K(0), some_var())      # `0..n`: an identifier right after `..`
+                if rng.random() < 0.5:
+                    # the same range inside a Rust macro: hygiene has to rename identifiers inside the raw tokens of `vec![..]`
+                    rg = Wrap('vec![%s].into_iter().flatten()', rg)
+                body.append(For(l, rg))
                 bound_locs.append(l)
             elif kind == 'agg':
                 res, bv = fresh_local(), fresh_local()
